@@ -89,7 +89,7 @@ def impl(case):
         except ValueError as ex:
             res.append({'build': 'skip:' + str(ex)})
             continue
-        if 'ImaginaryUnit' in json.dumps(tree):
+        if any(k in json.dumps(tree) for k in ('ImaginaryUnit', 'ComplexInfinity', 'NegativeInfinity', '"oo"', '"nan"')):
             res.append({'build': 'skip:complex'})
             continue
         try:
